@@ -80,6 +80,7 @@ type Node struct {
 	PadTo   int
 	GlueIn  bool // in-path placeholders glued to an option: -i={i:x}
 	NoSpawn bool // Process.Spawn = false (a documented field the library ignores)
+	TouchIn bool // the command re-writes its first input in place (same bytes, later mtime)
 	BgTail  bool // the command returns while a child of it still writes the rest of the first output
 	// TagArgs: "port.key" names of tags (scipipe qualifies a task's tags with the
 	// in-port they arrived on) whose values the command receives through
